@@ -125,7 +125,7 @@ def run_cache_trace(canon_seq, keys_order, n, parname, cls_equal):
     for pos, key in enumerate(keys_order):
         reply = c.get(idx[key], cache, n, par)
         filled = [k for k in names if not np.isnan(cache[idx[k]])]
-        eq = [k for k in filled if cls_equal(cache[idx[k]], canon(k)) <= 1]
+        neq = [k for k in filled if cls_equal(cache[idx[k]], canon(k)) > 1]
         same = bool(np.array([reply]).astype(np.complex128).tobytes() == cache[idx[key] : idx[key] + 1].tobytes())
         recs.append(
             {
@@ -133,7 +133,7 @@ def run_cache_trace(canon_seq, keys_order, n, parname, cls_equal):
                 "par": parname,
                 "key": key,
                 "filled": filled,
-                "eq": eq,
+                "neq": neq,
                 "reply": min(2, cls_equal(reply, canon(key))),
                 "same": same,
             }
